@@ -12,17 +12,23 @@ OBLIGATIONS = [
     "NanoVerif.C01.specPlacement_anchors",
     "NanoVerif.C01.advance_rule",
     "NanoVerif.C01.advance_zero_viewbox",
+    "NanoVerif.C01.paintedLayers_eq_spec",
+    "NanoVerif.C01.run_node",
+    "NanoVerif.C01.run_list",
     "NanoVerif.C16.linParam_affine",
     "NanoVerif.C16.radial_similarity",
     "NanoVerif.C16.transformed_denotes",
     "NanoVerif.C16.decomposeUniform_exact",
 ]
 DESIGN_REF = "DESIGN.md §5 C01"
-LEVEL_TEXT = ("Partial proof. Proved in Lean for all viewBoxes/metrics/user transforms: the affine nanoemoji builds equals the placement "
+LEVEL_TEXT = ("Partial proof. Proved in Lean: `paintedLayers_eq_spec` — for EVERY picosvg-normal body (any number of shapes, any nesting depth/width of "
+              "opacity groups) the stack loop of _painted_layers returns exactly one paint per element in document z-order with each group a composite "
+              "over its ordered children (mutual induction over the tree); and, for all viewBoxes/metrics/user transforms: the affine nanoemoji builds equals the placement "
               "the property states (uniform scale to em height, y flip at the ascender, horizontal centring) followed by the user transform; "
               "the advance rule; and (from C16) that gradients mapped through affines/similarities keep their colours and every transform "
               "encoding denotes its affine. The tie is an exact (Fraction) differential run of map_viewbox_to_font_space/_advance_width. "
-              "NOT proved: the whole-pipeline statement (z-order of _painted_layers, path->glyph migration with reuse, ufo2ft compile). "
+              "The loop model is tied to the real _painted_layers on generated documents incl. malformed ones (assertion behaviour). "
+              "NOT proved: the whole-pipeline composition (picosvg front end, ufo2ft compile); migration with reuse is C06. "
               "That part is explored by a point-sampling reference renderer comparing the source SVG with the COLR graph of the REAL font "
               "(after save+reload, glyph reached through cmap+GSUB) on generated SVG sets with cross-glyph reuse.")
 LEVEL_NOTE = ("Trusted: Lean kernel; transcription of SVG 1.1 / COLRv1 rendering rules in harness/render.py (Python, independent of nanoemoji); "
@@ -100,6 +106,92 @@ def suite_placement(ctx, res, n):
                     break
     if ops:
         res.sample({"suite": "placement", "op": ops[0], "impl": real[0]})
+
+
+def svg_tree(el):
+    """SvgNode JSON of the body of a picosvg document (independent lxml walk): shapes numbered in document order"""
+    from lxml import etree
+    counter = [0]
+
+    def walk(e):
+        tag = etree.QName(e).localname if isinstance(e.tag, str) else None
+        if tag == "path":
+            counter[0] += 1
+            return {"k": "shape", "id": str(counter[0] - 1)}
+        if tag == "g":
+            return {"k": "group", "opacity": fr(F(e.get("opacity", "1"))), "only_opacity": set(e.attrib.keys()) == {"opacity"},
+                    "kids": [w for w in (walk(c) for c in e) if w is not None]}
+        return None
+
+    return [w for w in (walk(c) for c in el if (etree.QName(c).localname if isinstance(c.tag, str) else None) != "defs") if w is not None]
+
+
+def paint_structure(p, ids):
+    """structure of a real Paint: PaintGlyph -> shape id (by path string), group composite -> alpha + layers"""
+    n = type(p).__name__
+    if n == "PaintGlyph":
+        return {"k": "glyph", "id": str(ids[p.glyph])}
+    if n == "PaintComposite":
+        return {"k": "composite", "alpha": fr(F(p.backdrop.color.alpha)), "layers": [paint_structure(c, ids) for c in p.source.layers]}
+    return {"k": "other:" + n}
+
+
+def suite_painted_layers(ctx, res, n):
+    """real _painted_layers vs the Lean loop model / specification, on generated documents incl. malformed ones"""
+    from nanoemoji import color_glyph
+    from nanoemoji.config import FontConfig
+    from picosvg.svg import SVG
+    from lxml import etree
+
+    rng = ctx.rng
+    cfg = FontConfig(upem=1000, ascender=1000, descender=0, width=1000)
+    ops, real = [], []
+    for k in range(n):
+        counter = [0]
+
+        def gen(depth, top=False):
+            items = []
+            for _ in range(rng.randint(2 if not top else 1, 4)):
+                if depth < 3 and rng.random() < 0.35:
+                    bad = rng.random() < 0.12
+                    op = rng.choice(["0.5", "0.25", "0.75"]) if not bad or rng.random() < 0.5 else rng.choice(["1", "0", "1.5"])
+                    kids = gen(depth + 1)
+                    if bad and rng.random() < 0.5:
+                        kids = kids[:1]
+                    extra = ' id="x"' if bad and rng.random() < 0.3 else ""
+                    items.append(f'<g opacity="{op}"{extra}>' + "".join(kids) + "</g>")
+                else:
+                    i = counter[0]
+                    counter[0] += 1
+                    items.append(f'<path d="M{i},{i} L{i + 5},{i} L{i + 5},{i + 5} Z" fill="#{(i * 37) % 256:02X}0000"/>')
+            return items
+
+        body = "".join(gen(0, top=True)) if rng.random() < 0.95 else ""
+        text = f'<svg xmlns="http://www.w3.org/2000/svg" viewBox="0 0 100 100"><defs/>{body}</svg>'
+        root = etree.fromstring(text.encode())
+        tree = svg_tree(root)
+        ops.append({"op": "painted-layers", "body": tree})
+        svg = SVG.fromstring(text)
+        ids = {}
+        for i, sh in enumerate(svg.shapes()):
+            ids[sh.as_path().d] = i
+        try:
+            layers = color_glyph._painted_layers("dbg", cfg, svg, 1000)
+            real.append({"ok": [paint_structure(p, ids) for p in layers]})
+        except AssertionError:
+            real.append({"err": "AssertionError"})
+    for o, r, m in zip(ops, real, ctx.driver.run(ops)):
+        nshapes = json_count(o["body"])
+        res.count(key=("pl", stable_hash(o)), nontrivial=nshapes >= 3)
+        res.stat("painted_layers:" + ("err" if "err" in r else "ok"))
+        if r != m:
+            res.add_tie_break("_painted_layers", o, m, r)
+    if ops:
+        res.sample({"suite": "painted_layers", "body": ops[-1]["body"], "impl": real[-1]})
+
+
+def json_count(body):
+    return sum(1 if n["k"] == "shape" else json_count(n["kids"]) for n in body)
 
 
 def placement(vb, asc, desc, adv, user):
@@ -196,6 +288,7 @@ def run(ctx, res):
                 "random metrics/user transform/tolerance, each glyph sampled on a jittered 9x9 grid + shape centres; "
                 "distinct = distinct case; non-trivial = >= 2 shapes")
     suite_placement(ctx, res, ctx.budget(1500, 20000))
+    suite_painted_layers(ctx, res, ctx.budget(400, 6000))
     # claim split (f): every affine the pipeline encodes goes through paint.transformed; a wrong encoding displaces a layer
     from harness.props import C16
     C16.suite_transformed(ctx, res, ctx.budget(2500, 30000))
